@@ -1,6 +1,7 @@
 package symalg
 
 import (
+	"crypto/elliptic"
 	"fmt"
 
 	"github.com/bronlabs/bron-crypto/pkg/base/algebra"
@@ -106,3 +107,11 @@ func (g *Group) FromAffine(x, y *F) (*G, error) {
 func (g *Group) HashWithDst(dst string, message []byte) (*G, error) {
 	return g.Hash(append(append([]byte(dst), 0), message...))
 }
+
+// FromAffineX / ToElliptic complete ecdsa.Curve; both are outside the model.
+func (g *Group) FromAffineX(x *F, odd bool) (*G, error) {
+	g.run.poison("not-encodable", "symalg: a point recovered from an x-coordinate (coordinates are opaque in the model)")
+	return nil, fmt.Errorf("symalg: FromAffineX is outside the model")
+}
+
+func (g *Group) ToElliptic() elliptic.Curve { return nil }
